@@ -281,22 +281,12 @@ def corpus_files():
     return sorted(os.path.join(d, f) for f in os.listdir(d) if f.endswith(".spec"))
 
 
-def static_opcodes():
-    """names registered in procbuilder.Allopcodes, read from the source (for the coverage claim)"""
-    p = os.path.join(vlib.REPO, "pkg", "procbuilder", "machine.go")
-    names = set()
-    try:
-        src = open(p).read()
-        types = re.findall(r"^\s*Allopcodes = append\(Allopcodes, (\w+)\{\}\)", src, re.M)
-        pk = os.path.join(vlib.REPO, "pkg", "procbuilder")
-        allsrc = "".join(open(os.path.join(pk, f)).read() for f in os.listdir(pk) if f.startswith("op_") and f.endswith(".go"))
-        for t in types:
-            mm = re.search(r"func \(\w+ %s\) Op_get_name\(\) string \{\s*return \"(\w+)\"" % t, allsrc)
-            if mm:
-                names.add(mm.group(1))
-    except OSError:
-        pass
-    return names
+def static_opcodes(model):
+    """names in procbuilder.Allopcodes at start-up, as printed by the harness (line `A …`)"""
+    for l in model.splitlines():
+        if l.startswith("A "):
+            return set(l[2:].split())
+    return set()
 
 
 def run(rep):
@@ -343,7 +333,7 @@ def run(rep):
                             "(a generator called log.Fatal / os.Exit?): " + err[-300:]},
                 "machine": {"M": last, "spec": None}, "n": 1}
 
-    static = static_opcodes()
+    static = static_opcodes(model) if os.path.exists(_oracle()) else set()
     missing_ops = sorted(static - stats["ops"])
     rep.coverage.update({
         "evaluations": stats["machines"],
